@@ -16,6 +16,7 @@ EXPLANATION = (
     "unconditionally). R2.6 ValueRange::accepts_more is `current < end_inclusive`; needs_more_vals counts pending values "
     "of the same arg. NOT decided: conservation as an equality between argv and reported values; short-cluster slicing "
     "arithmetic inside clap_lex (C13)."
+    ' R2.4 (added): react cuts delimited values with OsStrExt::split as long as it reads a value delimiter (a hand-written cutting loop is a violation).'
 )
 TRUSTED = ["rustc MIR", "clapfacts"]
 ASSUMPTIONS = ["user value parsers return a value for the raw string they are given (C04)"]
